@@ -39,35 +39,57 @@ def showKV : Outcome (Bytes × Bytes) → String
   | .err e => "err:" ++ e
   | .panic s => "panic:internal/aes_ige." ++ s
 
+/-- `n` bytes of the 64-bit linear congruential generator (MMIX constants) started at `seed`: the top
+byte of each successive state (the harness's `c05Bytes` expands the token `r<n>:<seed>` the same way) -/
+def lcgBytes (n : Nat) (seed : UInt64) : Bytes :=
+  let rec go : Nat → UInt64 → Array UInt8 → Array UInt8
+    | 0, _, acc => acc
+    | k + 1, s, acc =>
+      let s' := s * 6364136223846793005 + 1442695040888963407
+      go k s' (acc.push (s' >>> 56).toUInt8)
+  (go n seed #[]).toList
+
+/-- byte-string tokens: those of `Driver.parseBytes?` plus `r<n>:<seed>` (long pseudo-random inputs) -/
+def pb? (s : String) : Option Bytes :=
+  match s.toList with
+  | 'r' :: rest =>
+    match (String.ofList rest).splitOn ":" with
+    | [n, seed] =>
+      match n.toNat?, seed.toNat? with
+      | some n, some sd => if sd < 18446744073709551616 then some (lcgBytes n (UInt64.ofNat sd)) else none
+      | _, _ => none
+    | _ => none
+  | _ => Driver.parseBytes? s
+
 def handle : List String → String
   | ["c05.enc", key, iv, data] =>
-    match parseBytes? key, parseBytes? iv, parseBytes? data with
+    match pb? key, pb? iv, pb? data with
     | some k, some v, some d =>
       if k.length ≠ 32 ∨ v.length ≠ 32 then "bad-op" else
       let ek := Mtv.Crypto.aes256Expand k
       showRes (doEncrypt (fun b => Mtv.Crypto.aes256EncryptBlock ek b) v d (outFill d.length))
     | _, _, _ => "bad-op"
   | ["c05.dec", key, iv, data] =>
-    match parseBytes? key, parseBytes? iv, parseBytes? data with
+    match pb? key, pb? iv, pb? data with
     | some k, some v, some d =>
       if k.length ≠ 32 ∨ v.length ≠ 32 then "bad-op" else
       let dk := Mtv.Crypto.aes256Expand k
       showRes (doDecrypt (fun b => Mtv.Crypto.aes256DecryptBlock dk b) v d (outFill d.length))
     | _, _, _ => "bad-op"
   | ["c05.msgenc", authKey, msg] =>
-    match parseBytes? authKey, parseBytes? msg with
+    match pb? authKey, pb? msg with
     | some ak, some m => showOutcome (encryptMsg H aesE m ak)
     | _, _ => "bad-op"
   | ["c05.msgdec", authKey, msgKey, ct] =>
-    match parseBytes? authKey, parseBytes? msgKey, parseBytes? ct with
+    match pb? authKey, pb? msgKey, pb? ct with
     | some ak, some mk, some c => showOutcome (decryptMsg H aesD c ak mk)
     | _, _, _ => "bad-op"
   | ["c05.tkeys", n, s] =>
-    match parseBytes? n, parseBytes? s with
+    match pb? n, pb? s with
     | some nb, some sb => showKV (.ok (generateTempKeys H (fromBE nb) (fromBE sb)))
     | _, _ => "bad-op"
   | ["c05.tenc", n, s, _seed, rnd, msg] =>
-    match parseBytes? n, parseBytes? s, parseBytes? rnd, parseBytes? msg with
+    match pb? n, pb? s, pb? rnd, pb? msg with
     | some nb, some sb, some r, some m =>
       if r.length < 16 then "bad-op" else
       match encryptTemp H aesE m (fromBE nb) (fromBE sb) r with
@@ -75,20 +97,20 @@ def handle : List String → String
       | o => showOutcome o
     | _, _, _, _ => "bad-op"
   | ["c05.tnopad", n, s, data] =>
-    match parseBytes? n, parseBytes? s, parseBytes? data with
+    match pb? n, pb? s, pb? data with
     | some nb, some sb, some d => showOutcome (encryptTempNoPad H aesE d (fromBE nb) (fromBE sb))
     | _, _, _ => "bad-op"
   | ["c05.tdec", n, s, pad, answer] =>
     -- a conformant peer's message (32-byte new_nonce, 16-byte server_nonce), built from the
     -- specification only, handed to the model of DecryptMessageWithTempKeys
-    match parseBytes? n, parseBytes? s, parseBytes? pad, parseBytes? answer with
+    match pb? n, pb? s, pb? pad, pb? answer with
     | some nb, some sb, some p, some a =>
       if nb.length ≠ 32 ∨ sb.length ≠ 16 ∨ (20 + a.length + p.length) % 16 ≠ 0 then "bad-op" else
       let ct := conformantMsg H aesE nb sb a p
       s!"ct={showBytes ct} out={showOutcome (decryptTemp H aesD ct (fromBE nb) (fromBE sb))}"
     | _, _, _, _ => "bad-op"
   | ["c05.tdecraw", n, s, ct] =>
-    match parseBytes? n, parseBytes? s, parseBytes? ct with
+    match pb? n, pb? s, pb? ct with
     | some nb, some sb, some c => showOutcome (decryptTemp H aesD c (fromBE nb) (fromBE sb))
     | _, _, _ => "bad-op"
   | _ => "bad-op"
